@@ -325,6 +325,37 @@ static void run_c07(uint64_t c) {
         op.max_items = 3;
         d            = jg::gen_doc(r, op);
     }
+    bool lone_low = false;
+    if ((c & 3) == 3) {
+        // escape phase family: a string holding one escape of every form, k ordinary units, an escaped quote and then the
+        // text that would close the document; a scanner that steps over the wrong number of units after the escape ends
+        // the string at that quote and accepts a proper prefix
+        static const char *esc[] = {"\\\"", "\\\\", "\\/", "\\b", "\\f", "\\n", "\\r", "\\t", "\\u0041", "\\u00e9", "\\u20AC", "\\uFFFF",
+                                    "\\uD83D\\uDE00", "\\udbff\\udfff", "\\uDC00", "\\uDFFF", "\\udead"};
+        unsigned           which = unsigned((c >> 2) % 17);
+        unsigned           k     = unsigned((c >> 2) / 17 % 10);
+        lone_low                 = which >= 14;
+        std::string opens, closers;
+        unsigned    depth = 1 + r.below(3);
+        for (unsigned i = 0; i < depth; ++i) {
+            if (r.chance(1, 2)) {
+                opens += "[";
+                closers = "]" + closers;
+            } else {
+                opens += "{\"k\":";
+                closers = "}" + closers;
+            }
+        }
+        std::string body;
+        for (unsigned i = r.below(4); i > 0; --i) body += char('a' + r.below(26));
+        body += esc[which];
+        for (unsigned i = 0; i < k; ++i) body += char("abcdef0123456789xyz"[r.below(19)]);
+        body += "\\\"";
+        body += closers;
+        if (r.chance(1, 2)) body += ",\\\"x\\\":1" + closers;
+        d = opens + "\"" + body + "\"" + closers;
+        vf::count("c07_escape_phase_documents");
+    }
     vf::distinct(vf::fnv(d.data(), d.size()));
     vf::count("c07_documents");
     if (vf::want_sample() && (c % 3) == 0) vf::sample("document (%zu units, all prefixes + 8 suffixes + every closer swapped/removed): %s", d.size(), vf::show(d.data(), d.size(), 300).c_str());
@@ -333,8 +364,15 @@ static void run_c07(uint64_t c) {
         std::vector<char> w(d.begin(), d.end());
         Value<char>       v = JSON::Parse(w.data(), SizeT(w.size()));
         if (v.IsUndefined()) {
-            vf::fail("c07:valid-document-rejected", "text=%s", vf::show(d.data(), d.size(), 600).c_str());
-            return;
+            // (a lone low-surrogate escape is grammatical JSON and accepted today, but what it denotes is not fixed by
+            // the statement: a refusal is only counted; the document is RFC 8259-valid either way, so its proper prefixes
+            // and the other variants must still be rejected)
+            if (lone_low) {
+                vf::count("c07_lone_low_surrogate_documents_refused");
+            } else {
+                vf::fail("c07:valid-document-rejected", "text=%s", vf::show(d.data(), d.size(), 600).c_str());
+                return;
+            }
         }
     }
     switch (c % 3) {
